@@ -1,6 +1,7 @@
 package c09
 
 import (
+	"strings"
 	"fmt"
 	"os"
 	"testing"
@@ -33,4 +34,38 @@ func TestProbe(t *testing.T) {
 		fmt.Print(oracle.Show(x), " ")
 	}
 	fmt.Println()
+}
+
+// TestLakeProbe (development aid): C09_LAKEPROBE="<program>" C09_INPUT="<zson>" [C09_THRESH=n] runs one lake case.
+func TestLakeProbe(t *testing.T) {
+	prog := os.Getenv("C09_LAKEPROBE")
+	if prog == "" {
+		t.Skip()
+	}
+	shape, field := "countby", "s"
+	if len(prog) > 12 && prog[9:12] == "sum" {
+		shape, field = "sum", "n"
+	}
+	c := LakeCase{Pool: lakehPool(), Batches: []gen.Seq{gen.SeqFromZSON(os.Getenv("C09_INPUT"))},
+		Progs: []LakeProg{{Text: prog, Shape: shape, Field: field}}, Some: []int{0}, Compact: true}
+	o := runLakeCase(c)
+	fmt.Println("labels:", o.Labels, "known:", o.Known, "skip:", o.Skip)
+	if o.Fail != nil {
+		fmt.Println("FAIL", o.Fail.Sig, o.Fail.Msg)
+	}
+}
+
+// TestClassProbe (development aid): C09_OPS="op1 | op2" or C09_HEXFIELD=a with C09_INPUT runs one case through the
+// classifying Run function (so that C09_DISCOVER records its signature and case).
+func TestClassProbe(t *testing.T) {
+	in := os.Getenv("C09_INPUT")
+	if ops := os.Getenv("C09_OPS"); ops != "" {
+		o := runOpsCase(OpsCase{Input: gen.SeqFromZSON(in), Ops: strings.Split(ops, " | ")})
+		fmt.Println("ops:", o.Labels, o.Known, o.Skip, o.Fail)
+	}
+	if f := os.Getenv("C09_HEXFIELD"); f != "" {
+		e := &Ex{Op: "call", Text: "hex", Args: []*Ex{fieldEx(f)}}
+		o := runExprCase(ExprCase{Input: gen.SeqFromZSON(in), Expr: e, Text: e.String()})
+		fmt.Println("expr:", o.Labels, o.Known, o.Skip, o.Fail)
+	}
 }
